@@ -333,6 +333,19 @@ def r4_tables(ctx):
     mirror_bad = [S for S in tails["Union"] if OPP.get(tails["Union"][S]) != tails["Intersection"].get(tuple(sorted(OPP[x] for x in S)))]
     ctx.ob("types.Union/Intersection:mirror", "src/ovld/types.py:1", "the union's and the intersection's decision tables are mirror images of each other", not mirror_bad, f"union and intersection orders are not mirror images on {mirror_bad[:1]}")
     # Exactly[T] against T is LESS
+    from .c13 import documented_predicates
+
+    try:
+        f, ok, detail = documented_predicates(ctx)["Exactly"]
+        ctx.touch(f)
+        ctx.ob(f"{f.key}:vs-own-class", f.loc(), "Exactly[T] is more specific than T itself (LESS) and otherwise ordered like T (interpreted)", ok, detail + ": a method on Exactly[T] does not win over the method on T")
+    except (AnalysisError, KeyError) as e:
+        ctx.note(f"Exactly not interpretable ({e}); shape rule used instead")
+        _exactly_shape(ctx)
+
+
+def _exactly_shape(ctx):
+    repo = ctx.repo
     ex = [f for f in repo.all_funcs() if f.name == "Exactly"]
     ctx.require(ex, "the Exactly constructor vanished")
     for f in ex:
